@@ -7,6 +7,7 @@ without producing a token, resuming right after them.
 import KikiVerif.Proofs.Shift
 import KikiVerif.Spec.Lex
 import KikiVerif.Proofs.Tokenize
+import KikiVerif.Proofs.Layout
 
 namespace KikiVerif.C16
 open KikiVerif KikiVerif.Spec KikiVerif.Text
@@ -93,6 +94,43 @@ theorem C16_leading_whitespace (ws cs : Str) (i j : Nat) (h : ∀ c ∈ ws, isWh
     (match scanFrom cs j with | .ok ts => some (ts.map Spec.erase) | _ => none) :=
   Spec.leading_whitespace_irrelevant ws cs i j h
 
+/-- **C16, end to end: the layout never influences the result.**  If two source texts tokenize to the same token
+sequence up to positions (same kinds, names and attribute texts — what inserting or removing whitespace, line
+breaks and comments between tokens preserves, by the scanner theorems above), then the two runs of `generate`
+(any digests, any fuel) have the same coded grammar, automaton and table; the same emitted module except for the
+digest in the header — the emitted texts are `header sha₁ ++ b` and `header sha₂ ++ b` with one and the same
+`b`; and they stop the same way: both done, the same table conflict, or *the same error with its positions
+shifted accordingly* — a static error of the same variant with the same names whose every position is the
+stored position of the same-index token of either text (`SameErr.static`), a parse error at the same token
+index with that token's own span in either text (`parseAt`), or both at end of input (`parseEof`).
+Proof (`Proofs/Relabel`, `Proofs/Layout`): the front-end parser reads token kinds only, `cst_to_ast` and
+`validate_ast` only copy positions (naturality under every relabelling `ρ : Nat → Nat`), and nothing after
+validation reads a position; both token lists are relabellings of the list that carries the token indices. -/
+theorem C16_layout_insensitive (src1 src2 sha1 sha2 : Str) (fuel : Nat) (t1 t2 : List Token)
+    (h1 : Tokenize.tokenize src1 = .ok t1) (h2 : Tokenize.tokenize src2 = .ok t2)
+    (he : t1.map Spec.erase = t2.map Spec.erase) :
+    Layout.SameResult src1 src2 sha1 sha2 t1 t2 (Generate.stages src1 sha1 fuel) (Generate.stages src2 sha2 fuel) :=
+  Layout.relayout src1 src2 sha1 sha2 fuel t1 t2 h1 h2 he
+
+/-- the hypothesis is met, e.g., by any amount of leading `White_Space`: the result is the same up to positions -/
+theorem C16_leading_whitespace_end_to_end (ws cs sha1 sha2 : Str) (fuel : Nat) (t1 : List Token)
+    (hws : ∀ c ∈ ws, isWhitespace c = true) (h1 : Tokenize.tokenize cs = .ok t1) :
+    ∃ t2, Tokenize.tokenize (ws ++ cs) = .ok t2 ∧
+      Layout.SameResult (ws ++ cs) cs sha2 sha1 t2 t1 (Generate.stages (ws ++ cs) sha2 fuel) (Generate.stages cs sha1 fuel) := by
+  have hl := Spec.leading_whitespace_irrelevant ws cs 0 0 hws
+  rw [Tokenize.tokenize_eq_scan] at h1
+  have h1' : scanFrom cs 0 = .ok t1 := h1
+  rw [h1'] at hl
+  cases h2 : scanFrom (ws ++ cs) 0 with
+  | ok t2 =>
+    rw [h2] at hl
+    simp only [Option.some.injEq] at hl
+    have ht2 : Tokenize.tokenize (ws ++ cs) = .ok t2 := by rw [Tokenize.tokenize_eq_scan]; exact h2
+    have ht1 : Tokenize.tokenize cs = .ok t1 := by rw [Tokenize.tokenize_eq_scan]; exact h1'
+    exact ⟨t2, ht2, Layout.relayout _ _ _ _ fuel t2 t1 ht2 ht1 hl⟩
+  | err e => rw [h2] at hl; cases hl
+  | panic s => rw [h2] at hl; cases hl
+
 end KikiVerif.C16
 
 #print axioms KikiVerif.C16.C16_skip_whitespace
@@ -100,4 +138,6 @@ end KikiVerif.C16
 #print axioms KikiVerif.C16.C16_skip_comment
 #print axioms KikiVerif.C16.C16_trailing_comment
 #print axioms KikiVerif.C16.C16_translation_invariant
+#print axioms KikiVerif.C16.C16_layout_insensitive
+#print axioms KikiVerif.C16.C16_leading_whitespace_end_to_end
 #print axioms KikiVerif.C16.C16_leading_whitespace
